@@ -159,6 +159,7 @@ func checkC07(c *Ctx) {
 	c07Assemble(c, uq)
 	c07Delims(c)
 	c07LexSuperset(c, accepted)
+	c07EscapeRange(c)
 	c07Plumbing(c)
 	c07Numbers(c)
 	c07Keywords(c)
@@ -556,4 +557,95 @@ func c07Delims(c *Ctx) {
 		r.Ob("DELIMS", fmt.Sprintf("parser.%s strips exactly %d delimiter byte(s) at each end", spec.name, spec.k), t.Pos(f.Pos()), (okSlice || prefSuf >= 2) && cutset == "",
 			fmt.Sprintf("s[%d:len(s)-%d] found: %v, TrimPrefix/TrimSuffix calls: %d, cutset trim: %q — a cutset trim also removes quote characters that are part of the text", spec.k, spec.k, okSlice, prefSuf, cutset))
 	}
+}
+
+// c07EscapeRange: lexEscape is the decoder that refuses numeric escapes outside the code-point range (the unquoter,
+// adapted from an old strconv, only tests `v > MaxRune` on a signed rune). Its digit loop accumulates up to eight
+// hexadecimal digits, i.e. values up to 16^8-1 = 4294967295; the range test `x > max` is exact only if the accumulator
+// cannot wrap before it. Rule: every loop-carried integer in lexEscape that is multiplied/shifted and added to per
+// iteration has a type that holds 4294967295.
+func c07EscapeRange(c *Ctx) {
+	r, t := c.R, c.T
+	le := t.Func(pParser, "lexEscape")
+	if le == nil {
+		r.Undecided("ESCAPE-RANGE", "parser.lexEscape", "", "unresolved anchor")
+		return
+	}
+	intBits := int64(64)
+	if c.T.GOARCH == "386" || c.T.GOARCH == "arm" {
+		intBits = 32
+	}
+	holds := func(tp types.Type) (bool, string) {
+		b, ok := tp.Underlying().(*types.Basic)
+		if !ok {
+			return false, tp.String()
+		}
+		switch b.Kind() {
+		case types.Uint32, types.Uint64, types.Int64:
+			return true, b.Name()
+		case types.Uint, types.Uintptr:
+			return true, b.Name()
+		case types.Int:
+			return intBits == 64, b.Name()
+		}
+		return false, b.Name()
+	}
+	n := 0
+	allInstrs(le, func(in ssa.Instruction) {
+		ph, ok := in.(*ssa.Phi)
+		if !ok {
+			return
+		}
+		if b, isB := ph.Type().Underlying().(*types.Basic); !isB || b.Info()&types.IsInteger == 0 {
+			return
+		}
+		// an edge that is (ph * k | ph << k) (+ | '|') d
+		acc := false
+		var dep func(v ssa.Value, depth int, scaled bool) bool
+		dep = func(v ssa.Value, depth int, scaled bool) bool {
+			if depth > 4 {
+				return false
+			}
+			if v == ssa.Value(ph) {
+				return scaled
+			}
+			if bo, isB := v.(*ssa.BinOp); isB {
+				switch bo.Op {
+				case token.MUL, token.SHL:
+					return dep(bo.X, depth+1, true) || (bo.Op == token.MUL && dep(bo.Y, depth+1, true))
+				case token.ADD, token.OR:
+					return dep(bo.X, depth+1, scaled) || dep(bo.Y, depth+1, scaled)
+				}
+			}
+			if cv, isC := v.(*ssa.Convert); isC {
+				return dep(cv.X, depth+1, scaled)
+			}
+			return false
+		}
+		for _, e := range ph.Edges {
+			if dep(e, 0, false) {
+				acc = true
+			}
+		}
+		if !acc {
+			return
+		}
+		n++
+		ok2, name := holds(ph.Type())
+		r.Ob("ESCAPE-RANGE", fmt.Sprintf("lexEscape digit accumulator #%d cannot wrap below 16^8", n), t.Pos(phiPos(ph, le)), ok2,
+			fmt.Sprintf("accumulator type %s; \\UHHHHHHHH accumulates up to 4294967295 before the `> max` test — a narrower or signed 32-bit type wraps and lets out-of-range escapes through", name))
+	})
+	r.Floor("ESCAPE-RANGE", 1)
+}
+
+func phiPos(ph *ssa.Phi, f *ssa.Function) token.Pos {
+	if ph.Pos().IsValid() {
+		return ph.Pos()
+	}
+	for _, e := range ph.Edges {
+		if e.Pos().IsValid() {
+			return e.Pos()
+		}
+	}
+	return f.Pos()
 }
